@@ -309,7 +309,11 @@ func c08Run(c *runner.Ctx) {
 			for k := 0; k < 4 && len(terms) > 0; k++ {
 				probe = append(probe, terms[r.Intn(len(terms))])
 			}
-			for _, t := range probe {
+			// the lookups alternate between a fresh list and re-using the previous probe's list as prealloc
+			// (present 1-hit / general term followed by an absent one and vice versa)
+			var prevPL segment.PostingsList
+			r.Shuffle(len(probe), func(i, j int) { probe[i], probe[j] = probe[j], probe[i] })
+			for pi, t := range probe {
 				c.Eval(1)
 				present := len(sg.X.DocsOf(f, t)) > 0
 				var has bool
@@ -318,8 +322,13 @@ func c08Run(c *runner.Ctx) {
 				panicked, pmsg, stack := runner.Try(func() {
 					has, cerr = d.Contains([]byte(t))
 					var pl segment.PostingsList
-					pl, perr = d.PostingsList([]byte(t), nil, nil)
+					var pre segment.PostingsList
+					if pi%2 == 1 {
+						pre = prevPL
+					}
+					pl, perr = d.PostingsList([]byte(t), nil, pre)
 					if perr == nil {
+						prevPL = pl
 						cnt = pl.Count()
 						// an empty / unknown list must also hand out a working iterator
 						it, ierr := pl.Iterator(true, true, true, nil)
